@@ -169,6 +169,18 @@ pub fn run(args: &Args) {
         families.push(json!({"family": "one refused backend commit at every commit/action position, 2 transactions + action, all interleavings", "universes": dags.len(), "executions": ex}));
         rep.require_nonzero("faults_fired");
     }
+    {
+        // wide head sets: a local action on k = 2..=16 committed concurrent heads collapses them; the set
+        // of committed commands must not shrink (every previous head stays reachable)
+        let dags = crate::props::action::wide_dags(16);
+        let act = crate::sim::ActScript { publish: vec![(0xa0, false, 0, vec![rtlib::dag::Op::Append, rtlib::dag::Op::Emit(1)])], fail_after: None };
+        let follow = crate::sim::ActScript { publish: vec![(0xb8, false, 0, vec![rtlib::dag::Op::Append, rtlib::dag::Op::Emit(9)])], fail_after: None };
+        let filter: crate::props::simrun::Filter = |c, _| matches!(c, "commit-outcome" | "action-outcome" | "history-shrank" | "failed-op-changed-state" | "cmdset" | "heads");
+        let ex = run_all(&mut rep, "wide", &dags, oracles, false, filter, |d, f| crate::props::action::wide_cases(d, &act, &follow, f));
+        rep.count("wide_head_set_executions", ex);
+        families.push(json!({"family": "k = 2..16 concurrent heads (one or two sync transactions), then an action and a follow-up", "universes": dags.len(), "executions": ex}));
+        rep.require_nonzero("wide_head_set_executions");
+    }
     rep.require_nonzero("concurrent_transaction_errors");
     rep.require_nonzero("file_backend_executions");
     rep.require_nonzero("ok_actions");
